@@ -6,9 +6,11 @@
 package ucon
 
 import (
+	"crypto/ecdsa"
 	"math/big"
 
 	"github.com/youchainhq/go-youchain/common"
+	"github.com/youchainhq/go-youchain/consensus"
 	"github.com/youchainhq/go-youchain/params"
 )
 
@@ -34,4 +36,12 @@ func (sm *SortitionManager) VerifC04IsProposer(round *big.Int, roundIndex uint32
 // VerifC04IsValidator is SortitionManager.isValidator (sortition_mgr.go).
 func (sm *SortitionManager) VerifC04IsValidator(round *big.Int, roundIndex uint32, step uint32, lbType params.LookBackType) (bool, *StepView) {
 	return sm.isValidator(round, roundIndex, step, lbType)
+}
+
+// VerifC04ServerVerifyPriority is Server.verifyPriority (sortition_verifier.go),
+// the check the proposal / priority message handlers apply, on a Server that
+// holds nothing but the given chain reader, round and protocol parameters.
+func VerifC04ServerVerifyPriority(chain consensus.ChainReader, yp *params.YouParams, currentRound *big.Int, pub *ecdsa.PublicKey, data *ConsensusCommon) error {
+	s := &Server{chain: chain, currentRound: currentRound, currRoundParams: yp}
+	return s.verifyPriority(pub, data)
 }
